@@ -173,6 +173,19 @@ CLAIMS["C04"] = dict(
          "backslash) is the library's own rule; an identifier part containing a back-quote has no readable spelling (listed).",
     technique="codec table agreement: regex-derived literal syntax x extracted decoder/encoder rewrite chains on generated probes")
 
+CLAIMS["C07"] = dict(
+    level="other", engine="pyflow",
+    text="Codec agreement + who-may-format: the LiteralCompiler.render_literal_value overrides (DML and DDL) are partially "
+         "evaluated for str values under every dialect name the renderer can be built with, and their output on hostile value "
+         "probes (quotes, backslashes, comment markers, newlines, %) is read back with the reference literal rules of that "
+         "target (cited table): exactly one literal denoting the value. The tree's own printers (Constant.get_string, "
+         "Insert.to_value) are checked against the library's own QUOTE_STRING syntax. Single gateway: constant values reach "
+         "SQLAlchemy only via sa.literal(); raw-SQL constructors fed by value-derived expressions and repr() in printers are "
+         "violations; paramstyle='named' on every construction path. Read-back for ALL strings is NOT decided (finite probes).",
+    note="Target lexical rules are a reference table (MySQL default sql_mode, PostgreSQL standard_conforming_strings=on); "
+         "SQLAlchemy's rendering of non-string literals is trusted.",
+    technique="partial evaluation of literal encoders x reference literal readers per dialect + raw-SQL gateway scan")
+
 NA_PENDING = "check under construction in this session; not claimed until its rule module is committed"
 
 
